@@ -50,7 +50,12 @@ Quiesce == /\ Ev("Quiesce")
            /\ \A t \in T : (th[t].ph = "left" /\ th[t].stack > 0) => th[t].stack \notin stacks
            /\ \A k \in 1..Len(R.nth) : R.nth[k] = 0
            /\ UNCHANGED <<th, stacks>>
-Next == Reset \/ CreateInv \/ CreateResp \/ Alloc \/ Free \/ Enter \/ Seg \/ SegEnd \/ Leave \/ JoinInv \/ JoinResp \/ Quiesce
+\* Tier-B events of the directed stand-by-queue stealing scenario (h_life --prim stealsb): a thread that is stolen is in no sleep
+\* queue (back index -1: an interrupted sleeper waiting in a stand-by queue is still registered in its owner's sleep queue and
+\* must be left alone); afterwards no vCPU counts a sleeping thread
+HSteal == Ev("hSteal") /\ R.tidx = -1 /\ UNCHANGED <<th, stacks>>
+StealSb == Ev("StealSb") /\ (\A k \in 1..Len(R.sleeping) : R.sleeping[k] = 0) /\ UNCHANGED <<th, stacks>>
+Next == Reset \/ CreateInv \/ CreateResp \/ Alloc \/ Free \/ Enter \/ Seg \/ SegEnd \/ Leave \/ JoinInv \/ JoinResp \/ HSteal \/ StealSb \/ Quiesce
 Spec == Init /\ [][Next]_vars
 NotAccepted == l <= Len(Tr)
 Progress == TLCSet(1, IF TLCGet(1) < l THEN l ELSE TLCGet(1))
